@@ -1,18 +1,333 @@
 /-
-C08 — property theorems: the sequence functions / expressions of the model (transcribed Python)
-equal the F&O list model.  Helper lemmas live in EPV/Lemmas/SeqFuns*.lean.
+C08 — property theorems.  "The sequence expressions and the sequence/aggregate functions of
+elementpath return the value given by the definitional list model of XPath 3.1 / F&O 3.1."
+
+Reading guide
+* `EPV.Seq.*` (EPV/Model/SeqFuns.lean) transcribes the Python: loops with counters and flags,
+  the odometer of `XPathContext.iter_product`, `select_with_focus`, the `select` methods of the
+  operator tokens (`eval`), the parser's static check (`parseEval`).
+* `EPV.Seq.Spec.*` (EPV/Spec/FOSeq.lean) is the W3C text on `List`: `take/drop/filter/reverse`,
+  `⌊x + 1/2⌋`, nested comprehension for `for`, `∃/∀` over binding tuples for `some/every`.
+* Every theorem quantifies over all item lists (any item type where the function is
+  structural), all integer / double arguments (NaN, ±INF, any dyadic `m / 2^k`), all
+  expressions and all dynamic contexts.  Helper lemmas: EPV/Lemmas/SeqFuns*.lean.
 -/
-import EPV.Spec.FOSeq
+import EPV.Lemmas.SeqFunsLaws
 namespace EPV.C08
 open EPV.Seq
 
-/-- `fn:reverse` (accumulating loop) is list reversal. -/
-theorem reverse_eq_spec {α : Type} (xs : List α) : reverse xs = Spec.reverse xs := by
-  unfold reverse Spec.reverse
-  have h : ∀ (acc : List α), xs.foldl (fun acc x => x :: acc) acc = xs.reverse ++ acc := by
-    induction xs with
-    | nil => intro acc; rfl
-    | cons x xs ih => intro acc; simp [List.foldl, ih]
-  simpa using h []
+/-! ## rounding of position arguments -/
+
+/-- `round_number` (Decimal quantize, ROUND_HALF_UP for positive / ROUND_HALF_DOWN for the
+rest) is `⌊x + 1/2⌋`, the rounding of fn:round — every finite double, NaN and ±INF. -/
+theorem round_number_eq_spec (d : D) : roundNumber d = Spec.roundD d := roundNumber_eq d
+
+/-! ## one `…_eq_spec` per function (all lists, all arguments) -/
+
+/-- fn:insert-before: the `enumerate` loop with `max(0, pos-1)`, the `inserted` flag and the
+trailing insertion equals "items before the effective position, the inserts, the rest". -/
+theorem insert_before_eq_spec {α : Type} (xs : List α) (position : Int) (ins : List α) :
+    insertBefore xs position ins = Spec.insertBefore xs position ins := insertBefore_eq xs position ins
+
+/-- fn:remove: all items whose 1-based index differs from `position` (any integer). -/
+theorem remove_eq_spec {α : Type} (xs : List α) (position : Int) :
+    remove xs position = Spec.remove xs position := remove_eq xs position
+
+/-- fn:subsequence/2 = `S[round(start) le position()]`, for every double `start`. -/
+theorem subsequence2_eq_spec {α : Type} (xs : List α) (start : D) :
+    subsequence2 xs start = Spec.subsequence2 xs start := subsequence2_eq xs start
+
+/-- fn:subsequence/3 = `S[round(a) le position() and position() lt round(a) + round(b)]`,
+for all doubles `a`, `b` including NaN, ±INF and the `.5` cases. -/
+theorem subsequence_eq_spec {α : Type} (xs : List α) (start len : D) :
+    subsequence3 xs start len = Spec.subsequence3 xs start len := subsequence3_eq xs start len
+
+/-- fn:reverse -/
+theorem reverse_eq_spec {α : Type} (xs : List α) : reverse xs = Spec.reverse xs := reverse_eq xs
+
+/-- fn:head = `S[1]` -/
+theorem head_eq_spec {α : Type} (xs : List α) : head xs = Spec.head xs := head_eq xs
+
+/-- fn:tail = `subsequence(S, 2)` -/
+theorem tail_eq_spec {α : Type} (xs : List α) : tail xs = Spec.tail xs := tail_eq xs
+
+/-- fn:count -/
+theorem count_eq_spec {α : Type} (xs : List α) : count xs = Spec.count xs := count_eq_length xs
+
+/-- fn:empty / fn:exists -/
+theorem empty_exists_eq_spec {α : Type} (xs : List α) :
+    isEmpty xs = decide (xs.length = 0) ∧ isExists xs = decide (xs.length ≠ 0) :=
+  ⟨isEmpty_eq xs, isExists_eq xs⟩
+
+/-- fn:zero-or-one, fn:one-or-more, fn:exactly-one: value and error code (FORG0003/4/5). -/
+theorem cardinality_eq_spec {α : Type} (xs : List α) :
+    zeroOrOne xs = Spec.zeroOrOne xs ∧ oneOrMore xs = Spec.oneOrMore xs ∧ exactlyOne xs = Spec.exactlyOne xs :=
+  ⟨zeroOrOne_eq xs, oneOrMore_eq xs, exactlyOne_eq xs⟩
+
+/-- the range operator: `range(start, stop + 1)` is the list of the integers from `a` to `b`. -/
+theorem range_eq_spec (a b : Int) : rangeTo a b = Spec.rangeTo a b := rangeTo_eq a b
+
+/-- `select_with_focus`: positions 1…n in order, size n. -/
+theorem select_with_focus_eq_spec {α : Type} (xs : List α) :
+    selectWithFocus xs = (Spec.positions xs).map fun t => (t.2, xs.length, t.1) := selectWithFocus_eq xs
+
+/-- fn:index-of: the positions of the items `eq` to the search value (non-comparable items,
+e.g. a boolean and a number, are distinct). -/
+theorem index_of_eq_spec (xs : Seq) (v : Atom) : indexOf xs v = Spec.indexOf xs v := indexOf_eq xs v
+
+/-- fn:distinct-values: the loop with its NaN flag and `results` list keeps exactly the first
+occurrence of every class of equal values (NaN equal to NaN). -/
+theorem distinct_values_eq_spec (xs : Seq) : distinctValues xs = Spec.distinctValues xs :=
+  distinctValues_eq xs
+
+/-- fn:sum, one- and two-argument form: type dispatch, integer / double result, NaN, FORG0006. -/
+theorem sum_eq_spec (xs : Seq) (zero : Option Seq) : fnSum xs zero = Spec.fnSum xs zero := fnSum_eq xs zero
+
+/-- fn:avg (the exact quotient) -/
+theorem avg_eq_spec (xs : Seq) : fnAvg xs = Spec.fnAvg xs := fnAvg_eq xs
+
+/-- fn:min / fn:max: dispatch on strings / booleans / integers / doubles, NaN, FORG0006 for
+mixed kinds; Python's `min`/`max` pick the same element as the specification's fold. -/
+theorem min_max_eq_spec (isMax : Bool) (xs : Seq) : fnMinMax isMax xs = Spec.fnMinMax isMax xs :=
+  fnMinMax_eq isMax xs
+
+/-- fn:string-join -/
+theorem string_join_eq_spec (xs : Seq) (sep : Option Seq) :
+    fnStringJoin xs sep = Spec.fnStringJoin xs sep := fnStringJoin_eq xs sep
+
+/-- effective boolean value of a sequence of atomic items -/
+theorem ebv_eq_spec (s : Seq) : ebv s = Spec.ebv s := ebv_eq s
+
+/-- the predicate test of `E[p]`: a single numeric value is compared with the position, anything
+else goes through the effective boolean value. -/
+theorem predicate_eq_spec (pos : Nat) (v : Seq) : predicateKeeps pos v = Spec.predicateTruth pos v :=
+  predicateKeeps_eq pos v
+
+/-- all one-, two-, three-argument functions at once, including argument conversion errors -/
+theorem apply_eq_spec :
+    (∀ f v, applyFn1 f v = Spec.applyFn1 f v) ∧ (∀ f a b, applyFn2 f a b = Spec.applyFn2 f a b) ∧
+    (∀ f a b c, applyFn3 f a b c = Spec.applyFn3 f a b c) :=
+  ⟨applyFn1_eq, applyFn2_eq, applyFn3_eq⟩
+
+/-! ## the odometer -/
+
+/-- `XPathContext.iter_product`: for any number of variables, any (dependent) range expressions,
+any outer variable store and any consumer, the explicit-stack loop (`k += 1` / `k -= 1`) visits
+exactly the binding tuples of the nested loops — the cartesian product in row-major order —
+with the same variable bindings, stops when the consumer stops, raises what the nested loops
+raise, and `subCost` passes suffice. -/
+theorem iter_product_eq_cartesian {σ : Type} (pending : List (Nat × Sel)) (hne : pending ≠ [])
+    (outer : Vars) (visit : Vars → σ → Except Err (σ × Bool)) (acc : σ) :
+    iterProduct pending outer visit acc = (cartFold visit pending outer acc).map Prod.fst :=
+  iterProduct_eq_cartFold pending hne outer visit acc
+
+/-- test (literals): two variables, the second range depends on the first -/
+example : iterProduct (σ := List (List (Nat × Seq)))
+      [(0, fun _ => .ok [.int 1, .int 2]), (1, fun vars => .ok ((lookupVar 0 vars).getD [] ++ [.int 9]))] []
+      (fun vars acc => .ok (acc ++ [vars], false)) []
+    = .ok [[(1, [.int 1]), (0, [.int 1])], [(1, [.int 9]), (0, [.int 1])],
+           [(1, [.int 2]), (0, [.int 2])], [(1, [.int 9]), (0, [.int 2])]] := by rfl
+
+/-! ## expressions -/
+
+/-- **Headline.**  For every expression built from literals, variables, `.`, `position()`,
+`last()`, `,`, `to`, predicates, `!`, `for` / `some` / `every` with any number of variables,
+the modelled functions, value comparisons, `and` / `or`, `+ - *`, `if`, and for every dynamic
+context: the evaluator transcribed from the token `select` methods returns the value (or error)
+of the XPath semantics.  Nested compositions — predicate in `for` in predicate — included. -/
+theorem eval_eq_sem (e : Expr) (c : Ctx) : eval e c = Spec.sem e c := EPV.Seq.eval_eq_sem e c
+
+/-- PARTIAL (known finding F08b).  Parsing plus evaluation agrees with the semantics when no
+clause variable's name occurs in its own range expression.  The full statement
+`parseEval e c = Spec.sem e c` is false: see `loop_var_check_rejects_valid`. -/
+theorem parse_eval_eq_sem_partial (e : Expr) (c : Ctx) (h : e.loopVarInRange = false) :
+    parseEval e c = Spec.sem e c := by
+  simp [parseEval, h, EPV.Seq.eval_eq_sem]
+
+/-- F08b witness: `for $v0 in $v0 return $v0` with `$v0 := (3, 1, 2)` in scope is rejected with
+XPST0008 although its value is `(3, 1, 2)`. -/
+theorem loop_var_check_rejects_valid :
+    let e := Expr.forE (.one 0 (.var 0)) (.var 0)
+    let c : Ctx := { item := some (.int 7), pos := 1, size := 1, vars := [(0, [.int 3, .int 1, .int 2])] }
+    e.loopVarInRange = true ∧ parseEval e c = .error .XPST0008 ∧
+      Spec.sem e c = .ok [.int 3, .int 1, .int 2] := ⟨by rfl, by rfl, by rfl⟩
+
+/-- the hypothesis of the partial theorem holds on a non-trivial expression:
+`for $v1 in $v0, $v2 in (1 to $v1) return $v2` -/
+example : (Expr.forE (.cons 1 (.var 0) (.one 2 (.range (.lit (.int 1)) (.var 1)))) (.var 2)).loopVarInRange = false := by
+  decide
+
+/-! ## algebraic laws -/
+
+/-- `reverse(reverse(S)) = S` -/
+theorem reverse_reverse {α : Type} (xs : List α) : reverse (reverse xs) = xs := by
+  simp [reverse_eq]
+
+/-- `count((S, T)) = count(S) + count(T)` -/
+theorem count_append {α : Type} (xs ys : List α) : count (commaSel xs ys) = count xs + count ys := by
+  simp [count_eq_length, commaSel]
+
+/-- `(head(S), tail(S)) = S` -/
+theorem head_tail {α : Type} (xs : List α) : commaSel (head xs) (tail xs) = xs := by
+  cases xs <;> simp [head_eq, tail_eq, commaSel, Spec.head, Spec.tail]
+
+/-- `count(a to b) = max(0, b - a + 1)` -/
+theorem range_length (a b : Int) : count (rangeTo a b) = (b + 1 - a).toNat := by
+  simp [count_eq_length, rangeTo_eq, Spec.rangeTo]
+
+/-- the members of `a to b` are exactly the integers between `a` and `b` -/
+theorem range_mem (a b i : Int) : i ∈ rangeTo a b ↔ a ≤ i ∧ i ≤ b := by
+  rw [rangeTo_eq]
+  simp only [Spec.rangeTo, List.mem_map, List.mem_range]
+  constructor
+  · rintro ⟨k, hk, rfl⟩
+    simp only [Int.ofNat_eq_natCast]
+    omega
+  · intro ⟨h1, h2⟩
+    exact ⟨(i - a).toNat, by omega, by simp only [Int.ofNat_eq_natCast]; omega⟩
+
+/-- `subsequence(S, a, b)` is the filter `S[round(a) le position() and position() lt round(a)
++ round(b)]` on the model side too (the loop of the implementation, not only the definition) -/
+theorem subsequence_as_filter {α : Type} (xs : List α) (a b : D) :
+    subsequence3 xs a b =
+      Spec.filterPos (fun i => decide (Spec.leD (Spec.roundD a) (Spec.ofPos i)) &&
+        decide (Spec.ltD (Spec.ofPos i) (Spec.addD (Spec.roundD a) (Spec.roundD b)))) xs :=
+  subsequence3_eq xs a b
+
+/-- `every $x… satisfies P` = `not(some $x… satisfies not(P))`: for every clause (any number of
+variables, dependent ranges), every test expression and every context — value and error alike —
+as computed by the implementation's evaluator. -/
+theorem every_not_some_not (bs : Binds) (t : Expr) (c : Ctx) :
+    eval (.everyE bs t) c = eval (.fn1 .not_ (.someE bs (.fn1 .not_ t))) c := by
+  rw [EPV.Seq.eval_eq_sem, EPV.Seq.eval_eq_sem]; exact sem_every_not_some_not bs t c
+
+/-- a clause with several variables is the nesting of single-variable clauses:
+`for $x in E1, $y in E2… return R` = `for $x in E1 return (for $y in E2… return R)` -/
+theorem for_multi_eq_nested (x : Nat) (e : Expr) (rest : Binds) (r : Expr) (c : Ctx) :
+    eval (.forE (.cons x e rest) r) c = eval (.forE (.one x e) (.forE rest r)) c := by
+  rw [EPV.Seq.eval_eq_sem, EPV.Seq.eval_eq_sem]
+  simp only [Spec.sem, Spec.semFor]
+
+/-- the same for `some` -/
+theorem some_multi_eq_nested (x : Nat) (e : Expr) (rest : Binds) (t : Expr) (c : Ctx) :
+    eval (.someE (.cons x e rest) t) c = eval (.someE (.one x e) (.someE rest t)) c := by
+  rw [EPV.Seq.eval_eq_sem, EPV.Seq.eval_eq_sem]
+  simp only [Spec.sem, Spec.semSome]
+  cases Spec.sem e c with
+  | error err => rfl
+  | ok s =>
+    simp only [bind, Except.bind]
+    congr 2
+    funext v
+    generalize Spec.semSome rest (Spec.bind1 c x v) _ = r
+    cases r with
+    | error err => rfl
+    | ok b => cases b <;> rfl
+
+/-- `remove(insert-before(S, p, x), p) = S` for every position `1 ≤ p ≤ count(S) + 1` -/
+theorem remove_insert {α : Type} (xs : List α) (x : α) (p : Int) (h1 : 1 ≤ p) (h2 : p ≤ xs.length + 1) :
+    remove (insertBefore xs p [x]) p = xs := by
+  rw [remove_eq, insertBefore_eq]
+  unfold Spec.remove Spec.insertBefore Spec.filterPos Spec.positions
+  have hp1 : ¬ p < 1 := by omega
+  simp only [hp1, if_false]
+  by_cases hgt : p > (xs.length : Int)
+  · have hp : p = (xs.length : Int) + 1 := by omega
+    subst hp
+    simp only [hgt, if_true, Nat.add_sub_cancel, List.append_assoc, List.singleton_append]
+    have := remove_insert_aux (fun i => decide ((i : Int) ≠ (xs.length : Int) + 1)) x xs xs.length 1 (Nat.le_refl _)
+      (by simp; omega) (fun i hi => by simp; omega)
+    exact this
+  · simp only [hgt, if_false, List.append_assoc, List.singleton_append]
+    have hk : p.toNat - 1 ≤ xs.length := by omega
+    have := remove_insert_aux (fun i => decide ((i : Int) ≠ p)) x xs (p.toNat - 1) 1 hk
+      (by simp; omega) (fun i hi => by simp; omega)
+    exact this
+
+/-- test: the hypotheses of `remove_insert` are satisfiable on a non-trivial list -/
+example : remove (insertBefore [10, 20, 30] 2 [99]) 2 = [10, 20, 30] ∧ (1 : Int) ≤ 2 ∧ (2 : Int) ≤ 3 + 1 := by decide
+
+/-- `E[n]` with an integer literal `n` = `E[position() eq n]`, for every `E`, `n`, context -/
+theorem predicate_position (S : Expr) (n : Int) (c : Ctx) :
+    eval (.filter S (.lit (.int n))) c = eval (.filter S (.cmp .eq .position (.lit (.int n)))) c := by
+  rw [EPV.Seq.eval_eq_sem, EPV.Seq.eval_eq_sem]
+  simp only [Spec.sem]
+  cases Spec.sem S c with
+  | error e => rfl
+  | ok s =>
+    simp only [bind, Except.bind]
+    congr 2
+
+/-- `E[last()]` is the last item of `E` (empty for empty `E`) -/
+theorem predicate_last (S : Expr) (c : Ctx) :
+    eval (.filter S .last) c = (eval S c).map fun s => s.drop (s.length - 1) := by
+  rw [EPV.Seq.eval_eq_sem, EPV.Seq.eval_eq_sem]
+  simp only [Spec.sem]
+  cases Spec.sem S c with
+  | error e => rfl
+  | ok s =>
+    simp only [bind, Except.bind, Spec.predicateTruth]
+    have : (fun t : Atom × Nat => (Except.ok (decide (Spec.eqD (Spec.ofPos t.2) (D.fin (s.length : Int) 0))) : Except Err Bool))
+        = fun t => Except.ok ((fun t : Atom × Nat => decide (t.2 + 1 = 1 + s.length)) t) := by
+      funext t
+      congr 1
+      apply decide_eq_decide.mpr
+      simp only [Spec.eqD, Spec.ofPos]
+      simp only [Int.ofNat_eq_natCast]
+      omega
+    rw [this, keepWhere_pure]
+    simp only [Except.map, pure, Except.pure]
+    congr 1
+    exact filter_last_idx s 1
+
+/-- fn:distinct-values satisfies the constraints of F&O §14.2.1: the result is a subsequence of the
+input (first occurrences, in order), (a) no two result items are equal, (b) every input item is
+equal to some result item. -/
+theorem distinct_values_constraints (xs : Seq) :
+    List.Sublist (distinctValues xs) xs ∧
+    List.Pairwise (fun a b => Spec.sameValue a b = false) (distinctValues xs) ∧
+    (∀ z ∈ xs, ∃ y ∈ distinctValues xs, Spec.sameValue y z = true) := by
+  rw [distinctValues_eq]
+  exact ⟨distinct_sublist xs, distinct_pairwise xs, distinct_covers xs⟩
+
+/-- fn:max on a non-empty sequence of integers returns an item of the sequence that is
+greater than or equal to every item -/
+theorem max_integers (n : Int) (ns : List Int) :
+    ∃ m, fnMinMax true ((n :: ns).map Atom.int) = .ok [.int m] ∧ m ∈ n :: ns ∧ ∀ y ∈ n :: ns, y ≤ m := by
+  exact ⟨Spec.extremum (fun x y => decide (x < y)) true n ns, fnMinMax_ints n ns, extremum_int_max n ns⟩
+
+/-- the predicate of the F&O definition of fn:subsequence as an expression:
+`round(a) le position() and position() lt round(a) + round(b)` -/
+def subsequencePredicate (a b : D) : Expr :=
+  .andE (.cmp .le (.fn1 .round (.lit (.dbl a))) .position)
+        (.cmp .lt .position (.arith .add (.fn1 .round (.lit (.dbl a))) (.fn1 .round (.lit (.dbl b)))))
+
+theorem sem_subsequencePredicate (a b : D) (c : Ctx) :
+    Spec.sem (subsequencePredicate a b) c =
+      .ok [.bool (decide (Spec.leD (Spec.roundD a) (Spec.ofPos c.pos)) &&
+        decide (Spec.ltD (Spec.ofPos c.pos) (Spec.addD (Spec.roundD a) (Spec.roundD b))))] := by
+  simp only [subsequencePredicate, Spec.sem, Spec.applyFn1, Spec.fnRound, Except.bind, bind, Spec.atMostOne,
+    Spec.compareAtoms, Spec.eqAtom?, Spec.ltAtom?, Spec.kind, Spec.numVal, and_self, if_true, Spec.ebv,
+    pure, Except.pure, Spec.numericOperand, Spec.arith, leD_decide]
+  simp only [Spec.ofPos, Int.ofNat_eq_natCast]
+  by_cases h1 : Spec.ltD (Spec.roundD a) (D.fin (↑c.pos) 0) <;>
+  by_cases h2 : Spec.eqD (Spec.roundD a) (D.fin (↑c.pos) 0) <;>
+  by_cases h3 : Spec.ltD (D.fin (↑c.pos) 0) (Spec.addD (Spec.roundD a) (Spec.roundD b)) <;>
+  simp [h1, h2, h3]
+
+/-- **The equivalence of the property statement, for the evaluator.**
+`subsequence(S, a, b)` = `S[round(a) le position() and position() lt round(a) + round(b)]` for
+every expression `S`, all doubles `a`, `b` and every context. -/
+theorem subsequence_equiv_filter_expr (S : Expr) (a b : D) (c : Ctx) :
+    eval (.fn3 .subseq S (.lit (.dbl a)) (.lit (.dbl b))) c = eval (.filter S (subsequencePredicate a b)) c := by
+  rw [EPV.Seq.eval_eq_sem, EPV.Seq.eval_eq_sem]
+  simp only [Spec.sem, sem_subsequencePredicate, bind, Except.bind]
+  cases Spec.sem S c with
+  | error e => rfl
+  | ok s =>
+    simp only [Spec.applyFn3, Spec.asDouble, Except.bind, Except.map, Spec.predicateTruth, Spec.ebv]
+    rw [keepWhere_pure (fun t : Atom × Nat => decide (Spec.leD (Spec.roundD a) (Spec.ofPos t.2)) &&
+        decide (Spec.ltD (Spec.ofPos t.2) (Spec.addD (Spec.roundD a) (Spec.roundD b))))]
+    rfl
 
 end EPV.C08
